@@ -527,6 +527,18 @@ CONFIG = {
         flags={'callback is not None': True},
         pre_hash='c3b10c8a6ca2'),
 }
+# ---- other valuations of the configuration tests (same source functions)
+def _variant(base, fn=None, **flags):
+    cfg = dict(CONFIG[base])
+    cfg['fn'] = base
+    cfg['flags'] = dict(cfg['flags'], **flags)
+    return cfg
+
+
+CONFIG['landweber_noproj'] = _variant('landweber', **{'projection is not None': False})
+CONFIG['kaczmarz_noproj'] = _variant('kaczmarz', **{'projection is not None': False})
+CONFIG['kaczmarz_cbinner'] = _variant('kaczmarz', **{CB_IN: True, CB_OUT: False})
+CONFIG['adupdates_cbinner'] = _variant('adupdates', **{CB_IN: True, CB_OUT: False})
 # mlem must stay the one-line wrapper around osmlem
 MLEM_BODY = 'osmlem([op], x, [data], niter=niter, callback=callback, **kwargs)'
 
@@ -553,7 +565,7 @@ def find_fn(repo, cfg, name):
 
 
 def translate_solver(name, cfg, repo):
-    fn = find_fn(repo, cfg, name)
+    fn = find_fn(repo, cfg, cfg.get('fn', name))
     ctx = Ctx(name, cfg)
     if 'pre_hash' in cfg:
         got = pre_digest(fn)
